@@ -23,9 +23,21 @@ TCB_NOTE = ("Trusted: Verus/Z3; Message imported by contract (verified in unit m
             "ASSUMED specs: BinaryHeap (new/push/pop/peek), Duration arithmetic wrappers, mem::take/Default (derive(Default) on Message), VecDeque::{get,front,front_mut}, "
             "core::{to,from}_be_bytes wrappers; declared rewrites listed in the evidence (generic Message::slice wrapper inlined, `mut self` builders, empty array iterator, Duration operators). ")
 
+K_BITVEC = {"unit": "bitvec", "inject": "elvis-core/src/protocols/ipv4/reassembly/bitvec.rs", "crate": "elvis-core"}
+K_SOCKRECV = {"unit": "sockrecv", "inject": "elvis-core/src/protocols/socket_api/socket.rs", "crate": "elvis-core"}
 K_IPGEN = {"unit": "ipgen", "inject": "elvis/src/ip_generator.rs", "crate": "elvis"}
 
 PROPS = {
+    "C02": {
+        "units": ["sockrecv", "message"],
+        "kani": [K_SOCKRECV],
+        "level": "proof",
+        "technique": "Verus contract on the buffer arithmetic of the extracted Socket::recv (loop closed by an inductive invariant) over a ghost queue of pending messages; concrete witnesses replayed on the real async function",
+        "level_text": "READ-SIDE SENTENCE ONLY ('a read that asks for at most n bytes never returns more than n, and successive reads never lose, duplicate or reorder bytes'): Socket::recv is verified, for every request size, every stored remainder and every queue of pending messages (unbounded number and sizes, arbitrary chunk layouts), to return at most `bytes` bytes and to satisfy  returned ++ pending_after == pending_before, where pending = stored remainder ++ concatenation of the queued messages in delivery order. By induction over calls the concatenation of successive reads is a prefix of what the socket was handed, in order, with nothing lost or duplicated. The first sentence of C02 (what the peer's socket is handed equals what was written, across TCP/UDP/IPv4/ARP/link and tokio schedules) is NOT decided by this check.",
+        "level_note": "Trusted: Verus/Z3; Message imported by contract (verified in unit message; Message::iter() 'yields exactly the view' is that unit's assumption). The extraction keeps the function body but applies declared rewrites that remove everything asynchronous: `async`, the session/listening check, yield_now, the shutdown subscription; `select!{shutdown, recv}` and `try_recv()` are routed to assumed-contract queue functions (a delivered message is the head of the ghost queue), Vec::extend(iter) to an assumed-contract append; struct Socket is reduced to the three fields recv uses. Hence concurrency (a message arriving or shutdown firing during the call) is modelled only as the nondeterministic outcome of those two functions. Termination of the receive loop is not verified. recv_msg, accept's replay of stored messages, Socket::send, SocketSession, TcpSession ordering and datagram isolation are not under contract.",
+        "assumptions": ["tokio mpsc delivers queued messages in FIFO order (assumed contract of vx_recv_blocking / vx_try_recv)", "Vec::extend appends exactly what the iterator yields", "cross-stack delivery (first sentence of C02) undecided"],
+        "explanation": "bounded reads over the socket's pending byte stream",
+    },
     "C15": {
         "units": ["ipgen", "subnet"],
         "kani": [K_IPGEN, K_SUBNET],
@@ -68,6 +80,7 @@ PROPS = {
     },
     "C11": {
         "units": ["reasm", "message"],
+        "kani": [K_BITVEC],
         "level": "proof",
         "technique": "Verus contracts on the extracted reassembly/{bitvec,fragment,segment}.rs functions; BinaryHeap by assumed specification",
         "level_text": "Per-call reassembly contract on Segment::receive_packet for all fragments and all prior states satisfying the representation invariant: exactly the blocks FO..FO+ceil(len/8) are marked, the final fragment fixes the total length, a datagram is returned exactly when the final fragment has been seen and every block is covered, the returned header is the offset-0 header with total length restored and MF cleared, an incomplete arrival bumps the epoch that guards expiry; PAYLOAD: relative to the datagram d whose slices the buffer holds (ghost parameter), for any arrival order and any exact repetitions of fragments, the pieces stay block-disjoint slices of d and the returned payload equals d byte for byte (tiling lemma over the heap's pop order, permutation lemma for push); BitVec get/set/set_range/range_complete/complete against the set-of-bits view (loops closed by invariants); Fragment order verified.",
